@@ -267,11 +267,39 @@ func runOne(c *replayCase) (res oneResult) {
 
 var pendingOffers int32
 
+var perChan sync.Map // channel pointer -> *int32 pending offers on that channel
+
+func chanCounter(ch interface{}) *int32 {
+	k := reflect.ValueOf(ch).Pointer()
+	v, _ := perChan.LoadOrStore(k, new(int32))
+	return v.(*int32)
+}
+
 // ChanOffer: another goroutine is blocked sending v on ch.
 func ChanOffer(ch interface{}, v interface{}) {
 	atomic.AddInt32(&pendingOffers, 1)
+	cnt := chanCounter(ch)
+	atomic.AddInt32(cnt, 1)
 	go func() {
 		reflect.ValueOf(ch).Send(reflect.ValueOf(v))
+		atomic.AddInt32(cnt, -1)
+		atomic.AddInt32(&pendingOffers, -1)
+	}()
+}
+
+// ChanOfferAfter: like ChanOffer, but the sender only shows up once everything offered on `after` was taken.
+func ChanOfferAfter(ch interface{}, v interface{}, after interface{}) {
+	atomic.AddInt32(&pendingOffers, 1)
+	cnt := chanCounter(ch)
+	atomic.AddInt32(cnt, 1)
+	first := chanCounter(after)
+	go func() {
+		for atomic.LoadInt32(first) > 0 {
+			time.Sleep(time.Millisecond)
+		}
+		time.Sleep(20 * time.Millisecond)
+		reflect.ValueOf(ch).Send(reflect.ValueOf(v))
+		atomic.AddInt32(cnt, -1)
 		atomic.AddInt32(&pendingOffers, -1)
 	}()
 }
@@ -293,7 +321,7 @@ func ChanOnRecv(ch interface{}, f func(v interface{})) {
 	}()
 }
 
-func ChanPending(ch interface{}) int  { return int(atomic.LoadInt32(&pendingOffers)) }
+func ChanPending(ch interface{}) int  { return int(atomic.LoadInt32(chanCounter(ch))) }
 func ChanBuffered(ch interface{}) int { return reflect.ValueOf(ch).Len() }
 
 // CancelWhenIdle returns a context that is cancelled once every offered value has been taken
